@@ -86,7 +86,9 @@ def m_run(p, lib, counter=None):
         return m_run(p["a"], lib, counter).sum(axis=p["axis"], keepdims=True)
     if op == "new":
         a = m_run(p["a"], lib, counter)
-        return np.expand_dims(a, p["axis"]) if lib == "np" else da.expand_dims(a, p["axis"])
+        if lib == "np":
+            return np.expand_dims(a, p["axis"])
+        return a.map_blocks(U._ExpandDims(p["axis"]), new_axis=p["axis"], dtype=a.dtype)
     if op == "concat":
         m = np if lib == "np" else da
         return m.concatenate([m_run(p["a"], lib, counter), m_run(p["b"], lib, counter)], axis=p["axis"])
@@ -101,7 +103,7 @@ def gen_modelled(rng, depth):
     if depth <= 0 or rng.random() < 0.15:
         nd = rng.randint(0, 3)
         shape = [rng.choice([0, 1, 1, 2, 3, 4]) if rng.random() < 0.9 else 5 for _ in range(nd)]
-        return {"op": "leaf", "chunks": U.rand_chunks(rng, shape)}, shape
+        return {"op": "leaf", "chunks": U.rand_chunks(rng, shape, 0.12)}, shape
     p, shape = gen_modelled(rng, depth - 1)
     nd = len(shape)
     t = rng.choice(["ew", "ew", "T", "drop", "keep", "new", "concat", "stack"])
@@ -242,7 +244,11 @@ def _ops(p):
 POOL_W = {"un": 2, "bin": 5, "where": 1, "astype": 1, "clip": 1, "T": 2, "sum": 2, "red": 3, "cumsum": 2, "rechunk": 2,
           "slice": 5, "take": 2, "concat": 2, "stack": 2, "bcast": 1, "reshape": 2, "expand": 1, "squeeze": 1, "flip": 1,
           "repeat": 1, "tile": 1, "pad": 1, "diff": 1, "dot": 2, "mb": 1, "mb_new": 1, "mb_drop": 1, "bwsum": 1, "bwlist": 1,
-          "bw2": 1, "bwc": 1}
+          "bw2": 1, "bwc": 1, "mb2": 2}
+
+
+OWN_W = {"un": 2, "bin": 6, "where": 2, "astype": 1, "clip": 1, "T": 3, "mb": 2, "mb2": 3, "mb_new": 2, "mb_drop": 2,
+         "bwsum": 2, "bwlist": 2, "bw2": 3, "bwc": 3, "concat": 3, "stack": 3, "bcast": 1}
 
 
 def case_pipeline(ctx, inp):
@@ -289,7 +295,14 @@ def generate(ctx):
     for _ in range(ctx.n(220, 2200)):
         p, _sh = gen_modelled(rng, rng.randint(1, 5))
         yield "modelled", {"prog": p}
+    # whole pool (zero-LENGTH dimensions allowed). Interior zero-length chunks such as (1, 0, 0) are generated only for the
+    # blockwise family below: for the operations owned by other properties (reshape, reductions, slicing, …) they expose
+    # per-operation defects that are reported to their owners (see notes/hlg.md), not C25 metadata defects.
     G = U.ProgGen(rng, POOL_W, leaf_dtypes=("i8", "f8", "i4", "bool", "f4"), maxdim=4, maxnd=3, allow_zero=True)
-    for _ in range(ctx.n(170, 1700)):
+    for _ in range(ctx.n(120, 1700)):
         p, _x = G.gen(rng.randint(2, 6))
         yield "pipeline", {"prog": p}
+    G0 = U.ProgGen(rng, OWN_W, leaf_dtypes=("i8", "f8", "i4", "bool"), maxdim=4, maxnd=3, allow_zero=True, zero_chunks=0.2)
+    for _ in range(ctx.n(60, 600)):
+        p, _x = G0.gen(rng.randint(1, 5))
+        yield "pipeline", {"prog": p, "stream": "zero-chunks"}
